@@ -14,7 +14,8 @@ ASSUMPTIONS = ["source-to-model tie is differential testing; name/parent of u / 
                "associativity and with_name's parent are checked by the extracted predicate c13_pred on the implementation, not proved"]
 RULE = ("26 base shapes (with/without scheme, authority, root, trailing slash, escapes, dots in names) x 21 segment texts: static clauses "
         "on every URL; u / s vs joinpath(s) + name + parent; joinpath(a, b) vs chained vs u / 'a/b' for all segment pairs; "
-        "with_name; with_suffix over 8 suffixes; plus random URLs; distinct = distinct request")
+        "with_name; with_suffix over 8 suffixes; encoded=True bases with lower-case / delimiter escapes inside a segment; the same argument object "
+        "passed more than once to joinpath against the chained calls; plus random URLs; distinct = distinct request")
 
 BASES = ["http://h", "http://h/", "http://h/a", "http://h/a/", "http://h/a/b", "http://h/a/b/", "http://h/a%20b/c%2Fd", "http://h/x.tar.gz",
          "http://h/.hidden", "http://h/a.", "http://h/a/b.c.d?q=1#f", "http://u:p@h:81/a", "//h/a/b", "/", "/a", "/a/", "/a/b.txt", "a", "a/",
